@@ -34,6 +34,9 @@ pub enum Op {
     Kill { proc_: u8 },
     GenCall { caller: u8, request: i32 },
     GenEventCall { caller: u8, request: i32 },
+    /// `watcher` is linked to and monitors `victim`, is kept busy in its handler with a completely full mailbox, and
+    /// `victim` fails meanwhile: the notices have to wait for room, they must not get lost
+    KillWhileFull { victim: u8, watcher: u8 },
 }
 
 #[derive(Clone, Debug, Serialize, Deserialize, PartialEq)]
@@ -121,10 +124,13 @@ fn run_net(c: &Case) -> Result<Result<NetOut, String>, BedErr> {
         node.start(0).await.map_err(|e| format!("node start: {e}"))?;
         let node = Arc::new(node);
         let mut procs: Vec<(ExternalPid, Log)> = vec![];
+        let mut gates: Vec<Arc<tokio::sync::Notify>> = vec![];
         for _ in 0..NPROC {
             let log = new_log();
-            let pid = node.spawn(Recorder { log: log.clone(), gate: None }).await.map_err(|e| e.to_string())?;
+            let gate = Arc::new(tokio::sync::Notify::new());
+            let pid = node.spawn(Recorder { log: log.clone(), gate: Some(gate.clone()) }).await.map_err(|e| e.to_string())?;
             procs.push((pid, log));
+            gates.push(gate);
         }
         let server = node.spawn(GenServerProcess::new(Echo, node.registry())).await.map_err(|e| e.to_string())?;
         let mut mgr = GenEventManager::new(node.registry());
@@ -274,6 +280,74 @@ fn run_net(c: &Case) -> Result<Result<NetOut, String>, BedErr> {
                             if pc != base_count - (NPROC - alive_n) {
                                 problems.push(("process-count-wrong".into(), format!("{}: process_count() = {}, expected {}", $phase, pc, base_count - (NPROC - alive_n))));
                             }
+                        }
+                    }
+                    Op::KillWhileFull { victim, watcher } => {
+                        let (p, w) = (*victim as usize % NPROC, *watcher as usize % NPROC);
+                        if p != w && m.alive[p] && m.alive[w] {
+                            let _ = node.link(&procs[w].0, &procs[p].0).await;
+                            m.links.insert((p.min(w), p.max(w)));
+                            match node.monitor(&procs[w].0, &procs[p].0).await {
+                                Ok(r) => m.monitors.push((w, p, denote(&OwnedTerm::Reference(r.clone())), true, r)),
+                                Err(e) => problems.push(("monitor-failed".into(), e.to_string())),
+                            }
+                            // the watcher blocks inside its handler ...
+                            let _ = node.send(&procs[w].0, OwnedTerm::atom("hold")).await;
+                            m.expected[w].push(Event::Regular(Value::atom("hold")));
+                            let lg = procs[w].1.clone();
+                            let want = Event::Regular(Value::atom("hold"));
+                            let n_hold = m.expected[w].iter().filter(|e| **e == want).count();
+                            let _ = wait_until(Duration::from_secs(5), || lg.lock().unwrap().iter().filter(|e| **e == want).count() >= n_hold).await;
+                            // ... while its mailbox is filled to the brim (capacity 1000)
+                            for k in 0..1000 {
+                                counter += 1;
+                                let v = payload("fill", k, counter);
+                                if node.send(&procs[w].0, crate::terms::lift0(&v).unwrap()).await.is_ok() {
+                                    m.expected[w].push(Event::Regular(v));
+                                }
+                            }
+                            // the victim fails: its notices for the watcher find no room
+                            killed_with_ties = true;
+                            let _ = node.send(&procs[p].0, OwnedTerm::atom("poison")).await;
+                            m.expected[p].push(Event::Regular(Value::atom("poison")));
+                            m.alive[p] = false;
+                            let me = pid_value(&procs[p].0);
+                            for (a, b) in m.links.clone() {
+                                let other = if a == p { b } else if b == p { a } else { continue };
+                                if m.alive[other] {
+                                    m.expected[other].push(Event::Exit { from: me.clone(), reason: Value::atom("error") });
+                                }
+                                m.links.remove(&(a, b));
+                            }
+                            for mon in m.monitors.iter_mut() {
+                                if mon.1 == p && mon.3 {
+                                    if m.alive[mon.0] {
+                                        m.expected[mon.0].push(Event::MonitorExit { monitored: me.clone(), reference: mon.2.clone(), reason: Value::atom("error") });
+                                    }
+                                    mon.3 = false;
+                                }
+                            }
+                            m.names.retain(|_, holder| *holder != p);
+                            for _ in 0..10 {
+                                drain().await;
+                            }
+                            // the watcher gets on with its mailbox
+                            gates[w].notify_one();
+                            let reg = node.registry();
+                            let t0 = std::time::Instant::now();
+                            let mut rounds = 0usize;
+                            while reg.get(&procs[p].0).await.is_some() {
+                                drain().await;
+                                rounds += 1;
+                                if t0.elapsed() > Duration::from_secs(5) && rounds >= crate::nodebed::MIN_WAIT_ROUNDS {
+                                    problems.push(("process-does-not-terminate".into(), format!("{}: process {} (its notices had to wait for a full mailbox)", $phase, p)));
+                                    break;
+                                }
+                                std::thread::sleep(Duration::from_micros(100));
+                            }
+                            let want_n = m.expected[w].len();
+                            let lg = procs[w].1.clone();
+                            let _ = wait_until(Duration::from_secs(5), || lg.lock().unwrap().len() >= want_n).await;
                         }
                     }
                     Op::GenCall { caller, request } | Op::GenEventCall { caller, request } => {
@@ -538,6 +612,7 @@ fn op_strategy() -> impl Strategy<Value = Op> {
         2 => any::<u8>().prop_map(|proc_| Op::Kill { proc_ }),
         1 => (any::<u8>(), prop_oneof![Just(0i32), Just(1), Just(-1), Just(i32::MAX), Just(i32::MIN), any::<i32>()]).prop_map(|(caller, request)| Op::GenCall { caller, request }),
         1 => (any::<u8>(), -1000i32..1000).prop_map(|(caller, request)| Op::GenEventCall { caller, request }),
+        1 => (any::<u8>(), any::<u8>()).prop_map(|(victim, watcher)| Op::KillWhileFull { victim, watcher }),
     ]
 }
 
